@@ -303,6 +303,8 @@ def run(prop, main):
         tier = os.environ["VERIF_TIER"]
     seed = int(os.environ.get("VERIF_SEED", "0") or 0)
     chk = Check(prop, tier, seed)
+    import logging
+    logging.getLogger().addHandler(logging.NullHandler())   # the library logs warnings through the root logger
     try:
         rc = main(chk)
     except SystemExit:
